@@ -24,7 +24,8 @@ READER_THEOREMS = [
 ]
 SCOPE_THEOREMS = [
     "BSVerif.Props.C05.Scope.array_element_consumes_one",
-    "BSVerif.Props.C05.Scope.skip_at",
+    "BSVerif.Scope.skip_at",
+    "BSVerif.Props.C05.Scope.array_close_skips_unread",
     "BSVerif.Props.C03.get_correct",        # object scopes: a skipped member re-establishes the cursor invariant
 ]
 THEOREMS = list(READER_THEOREMS) + SCOPE_THEOREMS
@@ -32,7 +33,9 @@ RULE = ("random nested well-formed objects (depth <= 4, every format width chose
         "sentinel bytes: SkipValue, and one ReadValue/Read*Size of EVERY target kind with both policies Skip — the reader must return "
         "false at exactly the end of the object (mismatch) or of the number (overflow) with the target untouched; also nil under "
         "ThrowError; same ops on the stream reader incl. objects straddling the 256-byte chunk boundary; truncated objects must raise "
-        "a parsing error; non-trivial = the reader returned false / skipped more than one byte; distinct = distinct op lines")
+        "a parsing error; scope level: request histories with values of another kind requested under Skip, array scopes left partly read "
+        "and followed by further requests, std::tuple at every subset of mismatched positions, shorter/longer arrays, also inside a class "
+        "followed by another field (mp.tuple … obj); non-trivial = the reader returned false / skipped more than one byte; distinct = distinct op lines")
 EXHAUSTIVE = {"quick": False, "thorough": False}
 ASSUMPTIONS = ["nesting depth small enough for the C++ stack (SkipValueImpl recursion is unbounded: NOTES, C02)",
                "input length < 2^32, bytes < 256"]
@@ -41,7 +44,7 @@ TAIL = bytes([0xC3, 0x2A, 0xC0])
 
 
 def nontrivial(op, impl):
-    if op.startswith("mp.scope") or op.startswith("mp.tuple"):
+    if op.startswith(("mp.scope", "mp.tuple")):
         return ";F" in impl or impl.startswith("F")
     t = impl.split(" ")
     return t[0] == "no" or (t[0] == "ok" and op.startswith("mp.skip") and int(t[-1]) > 1)
@@ -101,9 +104,12 @@ def gen(tier, rng, boost=1):
     ops = reader_gen(tier, rng, boost)
     # scope level: documents in which values of another kind are requested (Skip policy), memory and stream;
     # the oracle (abstract data model) demands that every untouched neighbour loads as if nothing had happened
-    scope_ops = gen_scope_ops(tier, rng, boost, partial_arrays=False, count=(600 if tier == "quick" else 10000) * boost)
+    scope_ops = gen_scope_ops(tier, rng, boost, count=(600 if tier == "quick" else 10000) * boost)
     ops += [o for o in scope_ops if " skip " in o]
     ops += tuple_gen(tier, rng, boost)
+    # the tuple inside an object, followed by another field: an array scope closed wherever the tuple stops
+    from .scopegen import gen_tupobj_ops
+    ops += gen_tupobj_ops(tier, rng, boost)
     return ops
 
 
